@@ -139,10 +139,7 @@ var ids = []resource.ID{"a", "b"}
 func H_FaultyStore() {
 	ctx, cancel := context.WithCancel(context.Background())
 	defer cancel()
-	steps := 3
-	if verif.Tier() == "thorough" {
-		steps = 4
-	}
+	steps := 3 // both tiers; the thorough tier deepens the delay bound (4 steps exceed 500 000 paths)
 	store := &fstore{faults: 2, loadFailAt: -1}
 	st := state.WrapCore(inmem.NewStateWithOptions(inmem.WithBackingStore(store))(tres.NS))
 	events := make(chan state.Event, 64)
